@@ -400,9 +400,9 @@ impl Session {
         catch(|| {
             if app.frozen_start.is_none() {
                 app.snapshot_trace_data();
-                app.clamp_selected_hop();
                 app.update_order_flow_counts();
             }
+            app.clamp_selected_hop();
             term.draw(|f| trippy_tui::verif::render(f, app)).map(|_| ())
         })
         .map_err(|p| Fail::new(format!("draw:{}", panic_sig(&p)), format!("drawing a frame panicked: {p}")))?
